@@ -4,6 +4,7 @@ package main
 
 import (
 	"bytes"
+	"math/big"
 	"fmt"
 	"go/ast"
 	"go/parser"
@@ -655,7 +656,13 @@ func (ex *Exec) evalSpecFunc(name string, call *ast.CallExpr, st *State) []Value
 		a := ex.eval(call.Args[0], st).scalar()
 		sub := st.clone()
 		sub.assume(a)
+		n0 := len(sub.pc)
 		b := ex.eval(call.Args[1], sub).scalar()
+		if !sub.dead {
+			for _, f := range sub.pc[n0:] {
+				st.assume(mkImplies(a, f))
+			}
+		}
 		return []Value{boolV(mkImplies(a, b))}
 	case "old":
 		if ex.oldSt == nil {
@@ -674,6 +681,22 @@ func (ex *Exec) evalSpecFunc(name string, call *ast.CallExpr, st *State) []Value
 			}
 		}
 		return []Value{ex.eval(call.Args[0], o)}
+	case "before":
+		if ex.loopEntry == nil {
+			unsupp("before() outside a loop invariant")
+		}
+		o := ex.loopEntry.clone()
+		for obj, v := range st.env {
+			if _, has := o.env[obj]; !has {
+				o.env[obj] = v
+			}
+		}
+		for _, obj := range ex.boundObjs {
+			if v, ok := st.env[obj]; ok {
+				o.env[obj] = v
+			}
+		}
+		return []Value{ex.eval(call.Args[0], o)}
 	case "forall__", "exists__":
 		lo := ex.eval(call.Args[0], st).scalar()
 		hi := ex.eval(call.Args[1], st).scalar()
@@ -681,6 +704,19 @@ func (ex *Exec) evalSpecFunc(name string, call *ast.CallExpr, st *State) []Value
 		info := ex.info()
 		pid := lit.Type.Params.List[0].Names[0]
 		obj := info.Defs[pid]
+		// constant small ranges are expanded (quantifier-free obligations)
+		if lo.isConst() && hi.isConst() && new(big.Int).Sub(hi.Val, lo.Val).Cmp(big.NewInt(64)) <= 0 {
+			var parts []*Term
+			for k := new(big.Int).Set(lo.Val); k.Cmp(hi.Val) < 0; k = new(big.Int).Add(k, big.NewInt(1)) {
+				sub := st.clone()
+				sub.env[obj] = scalarV(types.Typ[types.Int], mkIntBig(sortInt, k))
+				parts = append(parts, ex.eval(lit.Body.List[0].(*ast.ReturnStmt).Results[0], sub).scalar())
+			}
+			if name == "forall__" {
+				return []Value{boolV(mkAnd(parts...))}
+			}
+			return []Value{boolV(mkOr(parts...))}
+		}
 		bv := freshVar(pid.Name, sortInt)
 		sub := st.clone()
 		npc := len(sub.pc)
